@@ -246,6 +246,7 @@ func selfcertReplay(args []string) {
 
 		mdelta := delta
 		style := "none"
+		envelope := map[string]interface{}{}
 
 		switch c.Mod {
 		case "none", "member_order", "whitespace", "outer_whitespace", "escapes":
@@ -285,6 +286,12 @@ func selfcertReplay(args []string) {
 			} else {
 				msd["type"] = "0099"
 			}
+		case "sd_type_wrong_kind":
+			msd["type"] = []interface{}{7, true, []interface{}{"0001"}, map[string]interface{}{"t": "0001"}}[(c.Ao+c.H/256+len(c.Algs))%4]
+		case "sd_recoverycommitment_wrong_kind":
+			msd["recoveryCommitment"] = []interface{}{7, []interface{}{conc.commitment(2, c.H)}}[c.Ao%2]
+		case "envelope_didsuffix":
+			envelope["didSuffix"] = []interface{}{"EiAnotherSuffixAnotherSuffixAnotherSuffixAnoth", refModelHash(map[string]interface{}{"other": 1}, alg), ""}[(c.Ao+c.Ty)%3]
 		case "delta_updatecommitment":
 			mdelta = mk(9, scPatches(env, c.Patch, 1))
 		case "delta_patch_content":
@@ -334,7 +341,8 @@ func selfcertReplay(args []string) {
 			fatalf("unknown modification %s", c.Mod)
 		}
 
-		modBytes := encodeStyled(generic(map[string]interface{}{"type": "create", "suffixData": msd, "delta": mdelta}), style)
+		envelope["type"], envelope["suffixData"], envelope["delta"] = "create", msd, mdelta
+		modBytes := encodeStyled(generic(envelope), style)
 
 		p := testProtocol(1)
 		p.Patches = append(p.Patches, "remove-also-known-as")
